@@ -349,7 +349,7 @@ func (in *interp) readFile(name string) (string, bool) {
 	return string(data), true
 }
 
-var varRE = regexp.MustCompile(`^([_a-zA-Z][_a-zA-Z0-9]*)=(.*)`)
+var varRE = regexp.MustCompile(`(?s)^([_a-zA-Z][_a-zA-Z0-9]*)=(.*)$`) // the value is everything after the first "=", newlines included
 
 // nextRecord returns the next record of the main input.
 func (in *interp) nextRecord() (string, bool) {
